@@ -368,6 +368,26 @@ fn attempt(
     res.map_err(|e| (e, count))?;
     let time = parsed.to_naive_time();
     let date = parsed.to_naive_date();
+    // Today's date or midnight are only filled in for a part that was not
+    // given at all. A part that was given but does not exist (February
+    // 29th 2021, 10:60) is an error, not another day or midnight.
+    let date_given = parsed.year.is_some()
+        || parsed.month.is_some()
+        || parsed.day.is_some()
+        || parsed.ordinal.is_some()
+        || parsed.isoyear.is_some()
+        || parsed.isoweek.is_some()
+        || parsed.weekday.is_some();
+    let time_given = parsed.hour_div_12.is_some()
+        || parsed.hour_mod_12.is_some()
+        || parsed.minute.is_some()
+        || parsed.second.is_some();
+    if date.is_err() && date_given && time.is_ok() {
+        return Err(("The date does not exist".to_string(), count));
+    }
+    if time.is_err() && time_given && date.is_ok() {
+        return Err(("The time of day does not exist".to_string(), count));
+    }
     if let Some(tz) = tz {
         match (time, date) {
             (Ok(time), Ok(date)) => tz
